@@ -609,6 +609,103 @@ func vh10Wake(t *testing.T, o *vhOut, id int, rounds int) {
 	o.Emit(map[string]interface{}{"kind": "trace", "sub": "wake-up-of-a-parked-waiter", "id": id, "n": len(out), "outcomes": out, "trace": trace})
 }
 
+// vh10Pass is a client transport whose Write can be held AFTER the bytes have gone out: the caller is then
+// "still inside send" while the server already has the whole request.  Events only: held is signalled when
+// the Write has delivered its bytes, release lets it return (successfully).
+type vh10Pass struct {
+	net.Conn
+	hold    int32
+	held    chan uint16
+	release chan struct{}
+	left    int    // bytes of the current frame still to be written (frames may be written in several pieces)
+	tg      uint16 // its tag
+	typ     byte   // its type: only Treadlink frames are held (call A; call B sends Tfsync)
+}
+
+func (c *vh10Pass) Write(b []byte) (int, error) {
+	n, err := c.Conn.Write(b)
+	if err != nil {
+		return n, err
+	}
+	// writes are serialised by the client's sendMu
+	if c.left == 0 && len(b) >= 7 {
+		c.left = int(binary.LittleEndian.Uint32(b)) - len(b)
+		c.tg = binary.LittleEndian.Uint16(b[5:])
+		c.typ = b[4]
+	} else {
+		c.left -= len(b)
+	}
+	if c.left <= 0 {
+		c.left = 0
+		if msgType(c.typ) == msgTreadlink && atomic.CompareAndSwapInt32(&c.hold, 1, 0) {
+			c.held <- c.tg
+			<-c.release
+		}
+	}
+	return n, err
+}
+
+// vh10Late: the hand-over of the receive token when a call arrives in waitAndRecv LATE.  Per round: call B is sent
+// and holds the token; call A is sent completely but kept inside send (its Write has not returned); the server
+// answers A (B reads the frame and completes A) and then B; B returns — this is the event that tells the harness
+// that A's reply is in A's done channel and that the token is free; only then does A's Write return.  A now enters
+// the select with BOTH cases ready and must return its reply whichever case wins; no further frame is ever sent.
+func vh10Late(t *testing.T, o *vhOut, id int, rounds int) {
+	cc, sc := net.Pipe()
+	defer cc.Close()
+	defer sc.Close()
+	conn := &vh10Pass{Conn: cc, held: make(chan uint16, 1), release: make(chan struct{})}
+	reqs := make(chan [2]uint16, 16)
+	var ho int32
+	_, f := vh10Handshake(t, conn, sc, reqs, &ho)
+	out := []string{}
+	trace := []string{}
+	next := func(what string) uint16 {
+		select {
+		case r := <-reqs:
+			return r[1]
+		case <-time.After(10 * time.Second):
+			t.Fatalf("C10 late: %s did not arrive", what)
+		}
+		return 0
+	}
+	for k := 0; k < rounds; k++ {
+		a, b := 2*k, 2*k+1
+		resB := make(chan [2]string, 1)
+		resA := make(chan [2]string, 1)
+		go func() { resB <- [2]string{"B", vh10Guard(f.FSync)} }()
+		tb := next("B's request")
+		atomic.StoreInt32(&conn.hold, 1)
+		go func() { resA <- [2]string{"A", vh10Guard(func() error { _, err := f.Readlink(); return err })} }()
+		ta := <-conn.held // A's request is out, A is inside send
+		if got := next("A's request"); got != ta {
+			t.Fatalf("C10 late: tags %d / %d", got, ta)
+		}
+		sc.SetWriteDeadline(time.Now().Add(10 * time.Second))
+		send(ulog.Null, sc, tag(ta), &rreadlink{Target: "x"}) // read by B, delivered to A's done
+		sc.SetWriteDeadline(time.Now().Add(10 * time.Second))
+		send(ulog.Null, sc, tag(tb), &rfsync{})
+		ob, oa := "hang", "hang"
+		if r, ok := vh10Result(resB); ok { // B is back: A's reply is delivered, the token is free
+			ob = r[1]
+		}
+		conn.release <- struct{}{} // A's Write returns
+		if ob != "hang" {
+			if r, ok := vh10Result(resA); ok {
+				oa = r[1]
+			}
+		}
+		out = append(out, oa, ob)
+		trace = append(trace, fmt.Sprintf("AStart %d 2 1", b), fmt.Sprintf("ASendOk %d", b), fmt.Sprintf("AWaitToken %d", b), fmt.Sprintf("AStart %d 1 0", a),
+			fmt.Sprintf("AFrame %d 1 true", b), fmt.Sprintf("ABody %d true", b), fmt.Sprintf("AWaitToken %d", b), fmt.Sprintf("AFrame %d 2 true", b),
+			fmt.Sprintf("ABody %d true", b), fmt.Sprintf("AWaitDone %d", b), fmt.Sprintf("ASendOk %d", a), fmt.Sprintf("AWaitDone %d", a))
+		if oa == "hang" || ob == "hang" {
+			break
+		}
+	}
+	o.Emit(map[string]interface{}{"kind": "trace", "sub": "late-waiter-token-free", "id": id, "n": len(out), "outcomes": out, "trace": trace})
+}
+
 // ---- (e) fid discipline against a scripted server ----
 
 type vh10FidEv struct {
@@ -656,7 +753,7 @@ func vh10Fids(t *testing.T, o *vhOut, id int, script []string) {
 		done := make(chan struct{})
 		var got File
 		switch step {
-		case "ok", "refused", "lost":
+		case "ok", "refused", "lost", "lost-wrong":
 			go func() { _, got, _ = root.Walk([]string{"a"}); close(done) }()
 			var r req
 			select {
@@ -673,6 +770,8 @@ func vh10Fids(t *testing.T, o *vhOut, id int, script []string) {
 				send(ulog.Null, sc, tag(r.tg), &rlerror{Error: 2})
 			case "lost": // the server carried the walk out, but the client is sent a frame it cannot accept
 				send(ulog.Null, sc, tag(64000), &rfsync{})
+			case "lost-wrong": // ... or a reply of the wrong type under the walk's own tag (ErrBadResponse, not a ConnError)
+				send(ulog.Null, sc, tag(r.tg), &rfsync{})
 			}
 			<-done
 			evs = append(evs, vh10FidEv{K: step, Fid: nf})
@@ -980,6 +1079,8 @@ func TestVerifC10(t *testing.T) {
 		id++
 		vh10Wake(t, o, id, 12)
 		id++
+		vh10Late(t, o, id, 8)
+		id++
 	}
 	// (f) later calls after a frame the receiver rejected (commit 91df8ef)
 	vh10Desync(t, o, id)
@@ -987,7 +1088,7 @@ func TestVerifC10(t *testing.T) {
 	// (e) fid discipline: fixed corpus, then random scripts
 	for _, sc := range [][]string{
 		{"lost", "ok", "ok"}, {"ok", "lost", "clunk-ok", "ok", "ok"}, {"refused", "ok", "lost", "refused", "ok"},
-		{"ok", "ok", "clunk-fail", "ok", "clunk-ok", "lost", "ok", "ok"}} {
+		{"ok", "ok", "clunk-fail", "ok", "clunk-ok", "lost", "ok", "ok"}, {"lost-wrong", "ok", "ok"}, {"ok", "lost-wrong", "clunk-ok", "ok", "lost", "ok"}} {
 		vh10Fids(t, o, id, sc)
 		id++
 	}
@@ -998,7 +1099,7 @@ func TestVerifC10(t *testing.T) {
 	for i := 0; i < nf; i++ {
 		var sc []string
 		for k := 3 + r.Intn(8); k > 0; k-- {
-			sc = append(sc, []string{"ok", "ok", "refused", "lost", "clunk-ok", "clunk-fail"}[r.Intn(6)])
+			sc = append(sc, []string{"ok", "ok", "refused", "lost", "clunk-ok", "clunk-fail", "lost-wrong"}[r.Intn(7)])
 		}
 		vh10Fids(t, o, id, sc)
 		id++
